@@ -191,6 +191,15 @@ class Case:
                     self.bad("positive_index", nc, index=i, at=tag)
                 if cont[i - len(model)].id != id_:
                     self.bad("negative_index", nc, index=i - len(model), at=tag)
+                if i < 3:
+                    # a position given as one of NumPy's integers is the same position
+                    import numpy as np
+                    for ty in (np.int64, np.intp, np.uint8):
+                        try:
+                            if cont[ty(i)].id != id_:
+                                self.bad("numpy_integer_index_wrong", nc, index=i, type=ty.__name__, at=tag)
+                        except Exception as e:
+                            self.bad("numpy_integer_index_raises_%s" % type(e).__name__, nc, index=i, type=ty.__name__, at=tag)
                 try:
                     if cont[id_].id != id_:
                         self.bad("by_id_wrong", nc, at=tag)
